@@ -16,6 +16,7 @@ received. Rejected by Signature.bind => TypeError. wrap preserves metadata.
 from __future__ import annotations
 
 import decimal
+import enum
 import fractions
 import inspect
 import itertools
@@ -42,7 +43,18 @@ bind = tl.typelib.binding.bind
 wrap = tl.typelib.binding.wrap
 
 ANN = {"po": "int", "pk": "float", "va": "decimal.Decimal", "ko": "fractions.Fraction", "vk": "str"}
-NS = {"decimal": decimal, "fractions": fractions}
+class Mode(enum.Enum):
+    """an annotation whose own conversion fails with KeyError for an unknown name (a by-name lookup in _missing_)"""
+    RED = 1
+    BLUE = 2
+
+    @classmethod
+    def _missing_(cls, value):
+        return cls[value]
+
+
+NS = {"decimal": decimal, "fractions": fractions, "Mode": Mode}
+ANN_FAIL = {"po": "Mode", "pk": "Mode", "va": "Mode", "ko": "Mode", "vk": "str"}
 EMPTY = inspect.Parameter.empty
 
 
@@ -160,6 +172,14 @@ def expected(sig, a, k, raw):
     if raw_rejected:
         return ("skip",)
     exp = {}
+    try:
+        return ("ok", _converted(sig, ba))
+    except Exception as e:  # noqa: BLE001 - the annotation's own routine rejects the argument: that is what the caller must see
+        return ("raises", e)
+
+
+def _converted(sig, ba):
+    exp = {}
     for name, p in sig.parameters.items():
         if name == "self":
             continue
@@ -179,7 +199,7 @@ def expected(sig, a, k, raw):
             exp[name] = {kk: conv(v) for kk, v in val.items()}
         else:
             exp[name] = conv(val)
-    return ("ok", exp)
+    return exp
 
 
 def nontrivial(sig, a, k):
@@ -301,11 +321,24 @@ def _check_calls(params, ns, text, calls, col, flavours, postponed):
                 got = inv(a, k)
                 row = "".join(sorted({kd for _, kd, _, _ in params}))
                 col.label(f"flavour:{flavour}")
+                if exp[0] == "TypeError" and "Mode" in text and "purple" in (*a, *k.values()):
+                    # a call Python rejects AND an argument its annotation rejects: which of the two errors the caller sees is
+                    # not stated
+                    col.label("skipped:rejected-call-with-unconvertible-argument")
+                    continue
                 if exp[0] == "TypeError":
                     col.label("rejected-by-python")
                     if not (got[0] == "exc" and isinstance(got[1], TypeError)):
                         col.violation("rejected-call-raises-TypeError", case,
                                       f"def f({text}) called with {a} {k}: got {_d(got)}",
+                                      bucket=f"{row}")
+                    continue
+                if exp[0] == "raises":
+                    col.label("conversion-fails")
+                    col.nt(repr((text, flavour, api, a, sorted(k.items()))))
+                    if not (got[0] == "exc" and type(got[1]) is type(exp[1])):
+                        col.violation("conversion-failure-propagates", case,
+                                      f"def f({text}) called with {a} {k}: unmarshal(annotation, argument) raises {tl.exc_name(exp[1])}, the bound call {_d(got)}",
                                       bucket=f"{row}")
                     continue
                 col.label("accepted-by-python")
@@ -364,6 +397,21 @@ def candidate_calls():
         for r in range(len(names) + 1):
             for sub in itertools.combinations(names, r):
                 out.append((a, {nm: str(21 + names.index(nm)) for nm in sub}))
+    return out
+
+
+def failing_calls():
+    """the candidate calls with valid member names everywhere but at ONE argument"""
+    out = []
+    for a, k in candidate_calls():
+        if len(a) + len(k) > 4:
+            continue
+        slots = [("a", i) for i in range(len(a))] + [("k", n) for n in k]
+        for kind, where in slots:
+            a2 = tuple("purple" if (kind, i) == ("a", where) else "RED" for i in range(len(a)))
+            k2 = {n: ("purple" if (kind, n) == ("k", where) else "RED") for n in k}
+            out.append((a2, k2))
+        out.append((tuple("RED" for _ in a), {n: "BLUE" for n in k}))
     return out
 
 
@@ -478,6 +526,7 @@ def plan(tier, seed):
     for k in range(8):
         shards.append({"kind": "random", "seed": seed * 1000 + k, "n": n})
     shards.append({"kind": "hierarchies"})
+    shards += [{"kind": "table", "lo": i, "hi": i + 8, "failing": True} for i in range(0, len(rows), 8)]
     return shards
 
 
@@ -487,9 +536,13 @@ def run_shard(shard, col):
         return
     if shard["kind"] == "table":
         post = bool(shard.get("postponed"))
-        rows = list(table_rows(ANN_LOCAL if post else None))[shard["lo"]:shard["hi"]]
-        calls = candidate_calls()
+        failing = bool(shard.get("failing"))
+        rows = list(table_rows(ANN_LOCAL if post else ANN_FAIL if failing else None))[shard["lo"]:shard["hi"]]
+        calls = failing_calls() if failing else candidate_calls()
         for i, params in enumerate(rows):
+            if failing:
+                check_calls(params, f"f{shard['lo'] + i}", calls, col, flavours=("function", "method", "class"))
+                continue
             check_calls(params, f"t{shard['lo'] + i}", calls, col, postponed=post)
         col.exhaustive_done = True
         return
